@@ -103,7 +103,7 @@ def derive_limits(ctx, prog, cg, ba):
 
 def run(ctx):
     chk = ctx.chk
-    chk.rule('A4', 'every write (library writer with a size, unbounded writer, subscript/pointer store, (buffer,size) '
+    chk.rule('A4', 'every load from a character object of known extent and every write (library writer with a size, unbounded writer, subscript/pointer store, (buffer,size) '
                    'contract at call sites) stays inside its destination object for all values the linear facts admit', floor=120)
     chk.rule('A4T', 'after a non-terminating writer a terminating store reaches every later use as a string', floor=8)
     chk.rule('A4R', 'every data source leaves its result buffer NUL-terminated on every return path', floor=30)
@@ -123,7 +123,7 @@ def run(ctx):
                        'libc writers respect their size argument; snprintf returns the untruncated length (>= 0)',
                        'a string passed in by the caller is NUL-terminated inside its object']
     chk.not_decided = ['termination proper (H1 decides only that no loop can spin without touching its exit condition)', 'uninitialised reads', 'UB kinds outside the rules',
-                       'over-reads (only writes and NULL/invalid-buffer uses are obligations)']
+                       'over-reads through pointers whose object is not known to the analysis (argv/envp vectors, library results); loads from character objects of known extent are A4 obligations']
     prog = ctx.program(facts.AS_CONFIGURED, 'lib')
     cg = ctx.callgraph(facts.AS_CONFIGURED, 'lib')
     roots = common.entry_points(prog)
@@ -163,9 +163,11 @@ def run(ctx):
            how='char line[%d]; the reader is handed max_line = %d' % (maxline, maxline), nontrivial=False)
     # ---- A4 ---------------------------------------------------------------------------------------
     nfun = 0
+    nreads = 0
     for key, (f, _, _) in sorted(reach.items(), key=lambda kv: str(kv[0])):
         nfun += 1
         obls = ba.analyse(f)
+        nreads += sum(1 for o in obls if o.kind == 'read')
         seen = {}
         for o in obls:
             i = seen.get((o.kind, o.text), 0)
@@ -186,6 +188,9 @@ def run(ctx):
                     continue
             chk.ob('A4', k, o.ok, o.node.where(), f.name, o.missing, how=o.how)
     chk.count('functions_analysed', nfun)
+    chk.count('read_obligations', nreads)
+    if ba.check_reads and nreads < 30:
+        raise AnalysisBroken('only %d load obligations were generated (expected the ~50 character loads of the parsers)' % nreads)
     chk.count('contract_call_sites', ba.contract_sites)
     # ---- A4T --------------------------------------------------------------------------------------
     nsites = 0
